@@ -217,6 +217,50 @@ def run(v):
             v.add_failure('C18.ids_names_one_to_one', {'what': 'auth'}, 'auth name %r -> %r' % (nm, WellKnownAuthenticationTypes.get_by_name(nm)))
     names_by_id = table
 
+    # ---- custom MIME names that differ from a registered name only in letter case are CUSTOM names: not mapped to an id, written as
+    # <len-1> <name>, read back unchanged - in all three places a MIME reference can stand (entry type, data MIME type, accept list)
+    from rsocket.extensions.helpers import metadata_item, data_mime_type, data_mime_types
+    variants = set()
+    for nm in table.values():
+        for var in (nm.upper(), nm.lower(), nm.title(), nm.swapcase()):
+            if var not in table.values() and 1 <= len(var) <= 128:
+                variants.add(var)
+    variants = sorted(variants)
+    if not thorough:
+        variants = [x for k, x in enumerate(variants) if k % 4 == seed % 4] + [b'Application/JSON', b'TEXT/PLAIN', b'video/h264']
+    for var in variants:
+        sigv = {'what': 'case_variant'}
+        rpv = {'kind': 'c18', 'variant': var.decode('latin1')}
+        try:
+            got_id = WellKnownMimeTypes.get_by_name(var)
+        except Exception:
+            got_id = None
+        if got_id is not None:
+            v.add_failure('C18.ids_names_one_to_one', sigv, 'the custom MIME name %r (not a registered name) maps to the well-known id %r' % (var, got_id), rpv)
+        header = bytes([len(var) - 1]) + var
+        for place, build, exp in (
+                ('entry type', lambda: CompositeMetadata([metadata_item(b'xyz', var)]), header + b'\x00\x00\x03xyz'),
+                ('data MIME type', lambda: CompositeMetadata([data_mime_type(var)]), bytes([0x80 | 122]) + len(header).to_bytes(3, 'big') + header),
+                ('accept list', lambda: CompositeMetadata([data_mime_types(var, WellKnownMimeTypes.TEXT_PLAIN)]),
+                 bytes([0x80 | 123]) + (len(header) + 1).to_bytes(3, 'big') + header + bytes([0x80 | WellKnownMimeTypes.TEXT_PLAIN.value.id]))):
+            try:
+                got = bytes(build().serialize())
+            except Exception as ex:
+                got = 'raised %s: %s' % (type(ex).__name__, ex)
+            if got != exp:
+                v.add_failure('C18.encode_matches_layout', dict(sigv, place=place), 'custom MIME name %r as %s: serialize() gave %s, layout says %s' % (
+                    var, place, got[:40].hex() if isinstance(got, bytes) else got, exp[:40].hex()), rpv)
+            try:
+                parsed = CompositeMetadata().parse(exp)
+                again = bytes(parsed.serialize())
+            except Exception as ex:
+                again = 'raised %s: %s' % (type(ex).__name__, ex)
+            if again != exp:
+                v.add_failure('C18.reencode_canonical', dict(sigv, place=place), 'custom MIME name %r as %s: decode then encode gives %s instead of the bytes read' % (
+                    var, place, again[:40].hex() if isinstance(again, bytes) else again), rpv)
+        n_case = len(variants)
+    v.add('case_variant_names', len(variants))
+
     # ---- per-entry expected bytes from the single-entry lists
     singles = {}
     for val, items in lists:
